@@ -77,6 +77,51 @@ theorem slot_chain_drains (queue : List (List Wait)) (sg : Signals) (adv : List 
       obtain ⟨p, hp, hwp⟩ := List.mem_flatten.mp hw
       exact hc p hp w hwp) hs hlen
 
+theorem qrun_nil (sg : Signals) (rs : List Bool) : qrun sg [] rs = [] := by
+  induction rs with
+  | nil => rfl
+  | cons r rs ih => simpa [qrun, qstep] using ih
+
+/-- **slot_queue_drains**: requests parked behind a slot do not listen to the connection themselves, yet after the
+    connection is closed (or the contexts are cancelled) the whole FIFO has returned within `qcost` steps, whatever the
+    peer does: the holder's covered waits fire, it releases, the next one acquires and its covered waits fire, and so on.
+    This is the release chain the slot waits of `waits_cover_ctx_and_conn` rely on. -/
+theorem slot_queue_drains (sg : Signals) (hs : sg.reqCancelled = true ∨ sg.connClosed = true) (rs : List Bool) :
+    ∀ (q : List (List Wait)), (∀ p ∈ q, ∀ w ∈ p, covered w = true) → qcost q ≤ rs.length → qrun sg q rs = [] := by
+  induction rs with
+  | nil =>
+    intro q _ hlen
+    cases q with
+    | nil => rfl
+    | cons p rest => simp [qcost] at hlen
+  | cons r rs ih =>
+    intro q hc hlen
+    cases q with
+    | nil => exact qrun_nil sg _
+    | cons p rest =>
+      cases p with
+      | nil =>
+        simp only [qrun, List.foldl_cons, qstep]
+        apply ih rest (fun p hp => hc p (List.mem_cons_of_mem _ hp))
+        simp only [qcost, List.map_cons, List.sum_cons, List.length_nil, List.length_cons] at hlen ⊢
+        omega
+      | cons w ws =>
+        have hf := covered_fires w sg r (hc (w :: ws) (List.mem_cons_self) w (List.mem_cons_self)) hs
+        simp only [qrun, List.foldl_cons, qstep, hf, if_true]
+        apply ih (ws :: rest)
+        · intro p hp x hx
+          rcases List.mem_cons.mp hp with rfl | hp
+          · exact hc (w :: p) (List.mem_cons_self) x (List.mem_cons_of_mem _ hx)
+          · exact hc p (List.mem_cons_of_mem _ hp) x hx
+        · simp only [qcost, List.map_cons, List.sum_cons, List.length_cons] at hlen ⊢
+          omega
+
+/-- without the signal a parked request can wait for ever behind a holder whose peer stays silent (why the chain needs
+    the holder's waits to be covered): one holder waiting for a result, adversary never delivers -/
+example : qrun ⟨false, false⟩ [[⟨"f", "g", "select", ["connctx", "reqctx", "result"]⟩], []] (List.replicate 50 false)
+    = [[⟨"f", "g", "select", ["connctx", "reqctx", "result"]⟩], []] := by decide
+example : qrun ⟨false, true⟩ [[⟨"f", "g", "select", ["connctx", "reqctx", "result"]⟩], []] [false, false, false] = [] := by decide
+
 /-! ### close protocol -/
 
 /-- Invariant of every reachable session state. -/
@@ -252,6 +297,73 @@ theorem onclose_exactly_once_at_completion (sched : List Step) (h : (run {} sche
   have := onclose_at_most_once sched
   simpa [AllCbs, hp] using this
 
+/-! #### the done signal completes -/
+
+theorem run_append' (s : Sess) (a b : List Step) : run s (a ++ b) = run (run s a) b := by
+  simp [run, List.foldl_append]
+
+/-- running the popped callbacks one by one, then noticing the list is empty -/
+theorem run_runOnes (l : List Nat) : ∀ (s : Sess), s.readerPc = 2 → s.popped = l →
+    run s (List.replicate (l.length + 1) .runOne) = { s with popped := [], ran := s.ran ++ l, readerPc := 3 } := by
+  induction l with
+  | nil =>
+    intro s hpc hp
+    obtain ⟨c, sc, cf, oc, po, ra, dc, pc⟩ := s
+    simp only at hpc hp
+    subst hpc hp
+    simp [run, step]
+  | cons f r ih =>
+    intro s hpc hp
+    obtain ⟨c, sc, cf, oc, po, ra, dc, pc⟩ := s
+    simp only at hpc hp
+    subst hpc hp
+    have hrep : List.replicate ((f :: r).length + 1) Step.runOne = .runOne :: List.replicate (r.length + 1) .runOne := by
+      simp [List.replicate_succ]
+    rw [hrep]
+    have hstep : step ⟨c, sc, cf, oc, f :: r, ra, dc, 2⟩ .runOne = ⟨c, sc, cf, oc, r, ra ++ [f], dc, 2⟩ := by simp [step]
+    have := ih ⟨c, sc, cf, oc, r, ra ++ [f], dc, 2⟩ rfl rfl
+    simp only [run] at this
+    simp only [run, List.foldl_cons, hstep]
+    rw [this]
+    simp [List.append_assoc]
+
+/-- the reader's part of the shutdown, for `k` registered callbacks -/
+def readerSched (k : Nat) : List Step := [.readerSeesClose, .pop] ++ List.replicate (k + 1) .runOne ++ [.closeDone]
+
+/-- **done_completes**: once `Close()` was called (context cancelled / socket closed), the reader's shutdown — it sees its
+    read fail, takes the callback list, runs each callback, completes the done signal — ends with the done signal
+    completed exactly once and every callback that was registered by then run exactly once, in order; no step of it can
+    block (each is enabled when its turn comes). -/
+theorem done_completes (s : Sess) (hi : Inv s) (hpc : s.readerPc = 0) (hc : s.cancelled = true ∨ s.casFlag = true) :
+    (run s (readerSched s.onClose.length)).doneClosed = s.doneClosed + 1 ∧
+    (run s (readerSched s.onClose.length)).ran = s.onClose ∧
+    (run s (readerSched s.onClose.length)).onClose = [] ∧
+    (run s (readerSched s.onClose.length)).readerPc = 4 := by
+  have hpr := hi.popped (by omega)
+  obtain ⟨e1, e2, e3, e4, e5⟩ := doClose_fields s
+  have h1 : run s [.readerSeesClose, .pop] =
+      { doClose s with popped := s.onClose, onClose := [], readerPc := 2 } := by
+    simp only [run, List.foldl_cons, List.foldl_nil, step, hpc, true_and]
+    have : (s.cancelled = true ∨ s.casFlag = true) := hc
+    simp [this, e5]
+  unfold readerSched
+  rw [List.append_assoc, run_append', h1, run_append',
+    run_runOnes s.onClose _ rfl rfl]
+  simp only [run, List.foldl_cons, List.foldl_nil, step, if_true]
+  simp [e1, e3, hpr.2]
+
+/-- … and further `Close()` calls in between change nothing of it (they only touch the flags): e.g. two racing closers -/
+theorem close_does_not_disturb_shutdown (s : Sess) :
+    (step s .close).popped = s.popped ∧ (step s .close).ran = s.ran ∧ (step s .close).readerPc = s.readerPc ∧
+    (step s .close).onClose = s.onClose ∧ (step s .close).doneClosed = s.doneClosed := by
+  obtain ⟨e1, e2, e3, e4, e5⟩ := doClose_fields s
+  exact ⟨e2, e3, e4, e5, e1⟩
+
+/-- a callback registered after the shutdown took the list is never run (observation, see docs/notes/C09.md): -/
+example : (run {} [.addOnClose 1, .close, .readerSeesClose, .pop, .addOnClose 2, .runOne, .runOne, .closeDone]).ran = [1] ∧
+    (run {} [.addOnClose 1, .close, .readerSeesClose, .pop, .addOnClose 2, .runOne, .runOne, .closeDone]).onClose = [2] := by
+  decide
+
 /-! Non-vacuity: two concurrent closers, a reader, two callbacks. -/
 example : (run {} [.addOnClose 1, .addOnClose 2, .close, .close, .readerSeesClose, .close, .pop, .runOne, .runOne, .runOne, .closeDone, .close]).ran = [1, 2] := by decide
 example : (run {} [.addOnClose 1, .close, .readerSeesClose, .pop, .runOne, .runOne, .closeDone]).doneClosed = 1 := by decide
@@ -305,12 +417,18 @@ open CoapVerif.Props.C09
 #print axioms returns_after_cancel
 #print axioms receive_wait_fires
 #print axioms slot_chain_drains
+#print axioms qrun_nil
+#print axioms slot_queue_drains
 #print axioms inv_init
 #print axioms doClose_inv
 #print axioms step_inv
 #print axioms run_inv
 #print axioms socket_and_done_at_most_once
 #print axioms close_idempotent
+#print axioms run_append'
+#print axioms run_runOnes
+#print axioms done_completes
+#print axioms close_does_not_disturb_shutdown
 #print axioms doClose_fields
 #print axioms step_allcbs
 #print axioms registered_cons
